@@ -27,7 +27,7 @@ def run(ctx):
     lout = ctx.path("c07lists.ndjson")
     rc_l, o_l = ctx.go_test(mirrorlib.PKG, "^TestVerifC07Lists$", binary=lrun.binary, env={"VERIF_WORLD": lrun.world_json, "VERIF_OUT": lout}, timeout=300)
     lrecs = [r for r in vlib.read_ndjson(lout) if r.get("kind") == "c07lists"]
-    if len(lrecs) < 3:
+    if len(lrecs) < 10:
         raise vlib.Inconclusive("forged validator list cases did not run:\n" + o_l[-2000:])
     for r in lrecs:
         bad = sorted(k for k, v in r.items() if k.endswith("_lists_match_hashes") and v is False)
